@@ -1080,6 +1080,7 @@ func (app *App) updateActiveNodes(clusterState, clusterStateDcs map[string]*node
 		err := app.adjustSemiSyncOnMaster(masterNode, masterState, waitSlaveCount)
 		if err != nil {
 			app.logger.Error().Err(err).Msgf("failed to adjust semi-sync on master %s to %d", masterNode.Host(), waitSlaveCount)
+			return err
 		}
 	}
 
